@@ -1,0 +1,38 @@
+use codegen::Scope;
+
+use super::{FragmentGenerator, FragmentGeneratorSpecs};
+
+/// Makes every record variant `Send` / `Sync` if and only if all its data are.
+///
+/// The byte buffer of a record is neither `Send` nor `Sync` by itself (the runtime does not know
+/// what it holds), so each record type opts in through a witness type which has the auto traits
+/// of the data of the variant.
+pub struct ThreadSafetyImplGenerator;
+
+impl FragmentGenerator for ThreadSafetyImplGenerator {
+    fn generate(&self, specs: &FragmentGeneratorSpecs, scope: &mut Scope) {
+        let record_spec = &specs.record;
+
+        let witness_name = format!("Record{}ThreadSafety", record_spec.variant.id());
+
+        // The witness is generic over the capacity only to keep the bounds below from being
+        // rejected as trivially false when some datum is not thread safe.
+        scope.raw(format!(
+            r#"/// Thread safety witness of record variant #{}.
+///
+/// It is [`Send`] (resp. [`Sync`]) if and only if all the data of the variant are.
+#[doc(hidden)]
+pub struct {}<const CAP: usize>(std::marker::PhantomData<{}>);"#,
+            record_spec.variant.id(),
+            witness_name,
+            record_spec.unpacked_record_name,
+        ));
+
+        for auto_trait in ["Send", "Sync"] {
+            scope.raw(format!(
+                "unsafe impl<const CAP: usize> {} for {}<CAP> where {}<CAP>: {} {{}}",
+                auto_trait, record_spec.capped_record_name, witness_name, auto_trait,
+            ));
+        }
+    }
+}
